@@ -530,7 +530,9 @@ fn apply_aev(t: &[SimIntf], e: AEv) -> Option<Vec<SimIntf>> {
 /// periodic check.  After each, every interface is asked for the host's addresses over each IP family
 /// it has: the answers (union over the families) must be exactly the current addresses that lie in a
 /// subnet of that interface, and nothing naming the host may carry an address of another link.
-fn run_auto(seq: &[AEv], fixed: bool, trace: bool) -> CaseResult {
+fn run_auto(seq: &[AEv], mode: u64, trace: bool) -> CaseResult {
+    // mode 0: automatic addressing; 1: a fixed address in every subnet; 2: fixed IPv4 addresses only
+    let fixed = mode != 0;
     let mut res = CaseResult::default();
     let mut table = auto_topo();
     {
@@ -549,7 +551,7 @@ fn run_auto(seq: &[AEv], fixed: bool, trace: bool) -> CaseResult {
     w.poke(0);
     w.advance(5100); // the first periodic check still follows the default interval
     // fixed mode: one fixed service address in every subnet that can ever exist in these tables
-    let fixed_addrs: Vec<IpAddr> = ["10.0.0.5", "10.0.1.5", "10.0.2.5", "fd00:2::5", "10.0.4.5", "fd00::5", "10.0.3.5", "fd00:3::5"].iter().map(|a| a.parse().unwrap()).collect();
+    let fixed_addrs: Vec<IpAddr> = ["10.0.0.5", "10.0.1.5", "10.0.2.5", "fd00:2::5", "10.0.4.5", "fd00::5", "10.0.3.5", "fd00:3::5"].iter().map(|a| a.parse::<IpAddr>().unwrap()).filter(|a| mode != 2 || a.is_ipv4()).collect();
     let info = if fixed {
         svc("_t._tcp.local.", "one", "host.local.", &fixed_addrs.iter().map(|a| a.to_string()).collect::<Vec<_>>().join(","), 80, &[])
     } else {
@@ -723,10 +725,10 @@ pub fn check(tier: &str) -> i32 {
     };
     let auto = FnPart {
         name: "addr-auto-follows-the-table".into(),
-        rule: format!("a service with automatic addressing, and one with a fixed address in every subnet, on 3 interfaces (two IPv4, one dual-stack); every sequence of <= {adepth} interface events over {} kinds (second address added/removed, interface down/up, an address moved to another interface and back, IPv6 added/removed, a new interface appears/disappears, prefix length changes), one per periodic check; after each event every interface is asked for the host's addresses over each family and the answers compared with the table; sequences with an event that is not enabled are skipped (trivial)", AEVS.len()),
-        n: naseq * 2,
-        describe: Box::new(move |i| format!("{:?} {}", aseq(i / 2), if i % 2 == 1 { "fixed addresses" } else { "addr-auto" })),
-        run: Box::new(move |i, tr| run_auto(&aseq(i / 2), i % 2 == 1, tr)),
+        rule: format!("a service with automatic addressing, one with a fixed address in every subnet and one with fixed IPv4 addresses only, on 3 interfaces (two IPv4, one dual-stack); every sequence of <= {adepth} interface events over {} kinds (second address added/removed, interface down/up, an address moved to another interface and back, IPv6 added/removed, a new interface appears/disappears, prefix length changes), one per periodic check; after each event every interface is asked for the host's addresses over each family and the answers compared with the table; sequences with an event that is not enabled are skipped (trivial)", AEVS.len()),
+        n: naseq * 3,
+        describe: Box::new(move |i| format!("{:?} {}", aseq(i / 3), ["addr-auto", "fixed addresses in every subnet", "fixed IPv4 addresses only"][(i % 3) as usize])),
+        run: Box::new(move |i, tr| run_auto(&aseq(i / 3), i % 3, tr)),
     };
     rep.run_part(&auto, Duration::from_secs(if thorough { 1800 } else { 50 }));
     rep.require("addr-auto-follows-the-table", "auto_answers_compared");
